@@ -133,6 +133,10 @@ class Report:
             (listed if b["key"] in known_keys else new).append(b)
         wall = time.time() - self.t0
         lines = []
+        if os.environ.get("VERIF_SHOW_UNKNOWN"):
+            for i in self.instances:
+                if i["verdict"] == "UNKNOWN":
+                    lines.append("UNKNOWN %s @ %s: %s" % (i["key"], i["where"], i["detail"][:300]))
         for b in listed:
             lines.append("KNOWN-FINDING: property=%s %s [%s @ %s]" % (
                 self.prop_id, known_keys[b["key"]].get("what", b["detail"]), b["key"], b["where"]))
